@@ -547,6 +547,41 @@ def run(chk):
         return True, "", ev
     chk.ob("C16.R2:hole-formatter-used", "every writer renders a formatted hole through the formatter it is given", hole_formatter_used)
 
+    def literal_fast_path():
+        """The shortcut for two literal templates answers with the *equality* of the two literal texts: the value returned on that path is
+        `PartialEq::eq` of the two `as_literal()` results (self's and other's) - not its negation, not a comparison of one side with itself."""
+        n = 0
+        for rb in eqb.return_blocks():
+            for path in eqb.acyclic_paths(0, rb, limit=3000):
+                r = mir.PathSummary(eqb, path).ret()
+                if mir.o_const_value(r) is not None:
+                    continue
+                base, pos = mir.norm_bool(r)
+                if not (base[0] == "call" and base[1].callee.get("name") in ("eq", "ne")):
+                    return False, "Template::eq returns %s on some path" % o_str(r)[:100], [], eqb.span
+                n += 1
+                is_eq = (base[1].callee.get("name") == "eq") == pos
+                if not is_eq:
+                    return False, ("the literal shortcut of Template::eq answers with the *in*equality of the two texts (%s at %s): two literal templates with the "
+                                   "same text compare unequal" % (base[1].callee.get("name"), base[1].loc)), [], base[1].loc
+                srcs = []
+                for a in base[1].args[:2]:
+                    o = eqb.origin(a, through_calls=("deref", "as_ref", "get", "by_ref"))
+                    x = o
+                    while x[0] in ("field", "downcast", "copy", "ref", "deref"):
+                        x = x[1]
+                    if x[0] == "call" and x[1].callee.get("name") == "as_literal":
+                        rec = eqb.origin(x[1].args[0], through_calls=("deref",))
+                        srcs.append(rec[1] if rec[0] == "param" else None)
+                    else:
+                        srcs.append(None)
+                if sorted(str(x) for x in srcs) != ["1", "2"]:
+                    return False, "the literal shortcut compares %s, not the literal of self with the literal of other" % srcs, [], base[1].loc
+        if n < 1:
+            raise mir.AnchorMissing("the literal shortcut of Template::eq")
+        return True, "", ["%d non-constant return(s)" % n]
+    chk.ob("C16.R1h:literal-fast-path", "two literal templates are equal exactly when their texts are", literal_fast_path)
+
     def hole_values_flag_neutral():
         """`for each hole, the first-wins property value ... to any writer, and identically`: a rendering written through a `fmt::Formatter` is the same
         text as one written into a String, whatever width / precision / fill the caller's format string carries (`format!("{:>8}", tpl.render(p))`).
